@@ -14,7 +14,8 @@ def plan_history(S, hist, mx, rng):
     sc = cc.Scenario(S, {"max": mx, "amount": rng.choice([2500, 1, 999999999999])}).start()
     cfg = sc.cfg
     open_ = {}
-    nxt = [rng.randrange(1, 9000)]
+    # the terminal's receipt counter runs over the WHOLE four-digit range, 0000 and 9999 included, and wraps
+    nxt = [rng.choice([0, 0, 9998, 9999, rng.randrange(0, 10000)])]
 
     def idle_cleanup():
         # map became empty after a completed commit/cancel: pending query, (reversal), end of day
@@ -32,14 +33,14 @@ def plan_history(S, hist, mx, rng):
             else:
                 req = S.reservation(cfg["cur"], cfg["amount"], tok)
                 if out == "ok":
-                    r = nxt[0]; nxt[0] = nxt[0] % 9998 + 1
+                    r = nxt[0]; nxt[0] = (nxt[0] + 1) % 10000
                     shape = rng.randrange(4)
                     if shape == 0:
                         replies = [S.intermediate(), S.status_info({0x27: 0, 0x87: r}), S.completion()]
                     elif shape == 1:        # the receipt number, then a further status information without one: the number stands
                         replies = [S.status_info({0x27: 0, 0x87: r}), S.intermediate(), S.status_info({0x27: 0}), S.completion()]
                     elif shape == 2:        # two numbers: the LAST one is the reservation's
-                        replies = [S.status_info({0x27: 0, 0x87: (r % 9998) + 1}), S.status_info({0x27: 0, 0x87: r}), S.completion()]
+                        replies = [S.status_info({0x27: 0, 0x87: (r + 1) % 10000}), S.status_info({0x27: 0, 0x87: r}), S.completion()]
                     else:                   # none, then the number
                         replies = [S.status_info({0x27: 0}), S.status_info({0x27: 0, 0x87: r}), S.intermediate(), S.completion()]
                     sc.exchange(req, replies)
